@@ -141,7 +141,9 @@ func (client *Client) buildMetricData(metrics *gostatsd.MetricMap) (metricData [
 				if !math.IsInf(float64(histogramThreshold), 1) {
 					bucketTag = "le:" + strconv.FormatFloat(float64(histogramThreshold), 'f', -1, 64)
 				}
-				newTags := timer.Tags.Concat(gostatsd.Tags{bucketTag})
+				// the bucket goes first: only the first MAX_DIMENSIONS tags become dimensions, and without it the buckets of a
+				// timer that has that many tags of its own would all be the same series
+				newTags := gostatsd.Tags{bucketTag}.Concat(timer.Tags)
 				addMetricData(key+".histogram", "Count", float64(count), newTags)
 			}
 		} else {
